@@ -1,0 +1,25 @@
+//go:build verif
+
+package kubeeventsmanager
+
+import (
+	"k8s.io/apimachinery/pkg/apis/meta/v1/unstructured"
+
+	"github.com/flant/shell-operator/pkg/filter/jq"
+	kemtypes "github.com/flant/shell-operator/pkg/kube_events_manager/types"
+)
+
+// VerifC09ApplyFilter exposes applyFilter exactly as resourceInformer calls it
+// (a fresh jq filter, no FilterFunc), followed by the RemoveFullObject step that
+// resourceInformer performs when the monitor does not keep full objects.
+// Add-only, compiled with -tags verif only; used by the C09 correspondence harness.
+func VerifC09ApplyFilter(jqFilter string, keepFullObjectsInMemory bool, obj *unstructured.Unstructured) (*kemtypes.ObjectAndFilterResult, error) {
+	res, err := applyFilter(jqFilter, jq.NewFilter(), nil, obj)
+	if err != nil {
+		return nil, err
+	}
+	if !keepFullObjectsInMemory {
+		res.RemoveFullObject()
+	}
+	return res, nil
+}
